@@ -161,7 +161,7 @@ var snippetPaths = [][]string{
 
 var opKinds = []string{"lookup", "fields", "fields-all", "walk", "unify", "unify-accept", "fill", "fill-value", "validate", "validate-concrete", "default", "eval",
 	"syntax", "syntax-final", "syntax-all", "decode", "json", "yaml", "equals", "subsume", "expr", "refpath", "allows", "kind", "len", "attrs", "compile", "encode", "encode-type",
-	"list", "exists-concrete", "string-int", "buildexpr", "validator-eq", "validator-eq"}
+	"list", "exists-concrete", "string-int", "buildexpr", "validator-eq", "validator-eq", "decode-ci", "decode-ci"}
 
 // rare branches where a badly placed preemption matters most
 var hotSites = []string{"runtime.getKey:upgrade", "runtime.LoadBuiltin:before-lock", "cue.cachedTypeFields:miss", "convert.astFromGoType:miss",
@@ -287,6 +287,30 @@ func build(c *Case) *env {
 		root.FillPath(cue.ParsePath("filled_"+c.Suffix), map[string]any{"k": 1}),
 	}
 	return e
+}
+
+// goCI has no json tags: CUE labels are matched to its fields exactly first and
+// case-insensitively otherwise.
+type goCI struct {
+	Hostname string
+	Port     int
+	Tags     []string
+	Nested   struct{ Level int }
+}
+
+// spelling varies the capitalisation of a label from the run's suffix and the call's argument.
+func spelling(name, sfx string, arg int) string {
+	h := uint64(arg + 1)
+	for _, c := range sfx {
+		h = h*131 + uint64(c)
+	}
+	b := []byte(name)
+	for i := range b {
+		if (h>>(uint(i)%60))&1 == 1 && b[i] >= 'a' && b[i] <= 'z' {
+			b[i] -= 'a' - 'A'
+		}
+	}
+	return string(b)
 }
 
 type goT struct {
@@ -443,6 +467,14 @@ func doOp(e *env, op Op) (res string) {
 		return show(e.ctx.Encode(goT{A: op.Arg, D: &goT{A: 1}}))
 	case "encode-type":
 		return show(e.ctx.EncodeType(goT{}))
+	case "decode-ci":
+		src := fmt.Sprintf("{%s: \"h\", %s: %d, %s: [\"a\", \"b\"], %s: %s: 2}", spelling("hostname", e.sfx, op.Arg), spelling("port", e.sfx, op.Arg),
+			8000+op.Arg, spelling("tags", e.sfx, op.Arg), spelling("nested", e.sfx, op.Arg), spelling("level", e.sfx, op.Arg))
+		var g goCI
+		if err := e.ctx.CompileString(src).Decode(&g); err != nil {
+			return "ERR " + err.Error()
+		}
+		return fmt.Sprintf("%+v", g)
 	case "validator-eq":
 		k := op.Arg % len(validators)
 		w := e.ctx.CompileString(validators[k]).LookupPath(cue.ParsePath("x"))
@@ -559,6 +591,9 @@ func raceKey(report string) (key string, inHarness bool) {
 		for _, f := range frames {
 			if strings.Contains(f.fn, "verifsim/") {
 				break
+			}
+			if !strings.HasPrefix(f.fn, "cuelang.org/go/") {
+				continue // Go runtime and standard library frames (map access, sort, …)
 			}
 			site = f
 			if !strings.HasPrefix(f.fn, "cuelang.org/go/internal/core/adt.") {
